@@ -503,6 +503,28 @@ func runC05(c *Ctx) {
 				l3.Sig = ed25519.Sign(attacker.priv, cat([]byte{3}, l3.Encode()))
 				sc.input = l3.Encode()
 				c05Run(c, sc, 0)
+				// the same forgery in the shapes on which checking the offline block cannot even be
+				// attempted (the check returns an error, not "false"): an expiry of zero, and identities
+				// whose signing type the library cannot verify (DSA, ECDSA) — still not authentic
+				{
+					l6 := l2
+					o6 := Offline{Expires: 0, SigType: 7, Key: cp(attacker.pub), Sig: r.Bytes(64)}
+					l6.H.Offline = &o6
+					l6.Sig = nil
+					l6.Sig = ed25519.Sign(attacker.priv, cat([]byte{3}, l6.Encode()))
+					sc.input = l6.Encode()
+					c05Run(c, sc, 0)
+					for _, dst := range []int{0, 1, 2} {
+						l7 := l2
+						l7.H.Dest = genIdentTypes(r, dst, []int{0, 4}[r.Intn(2)], false)
+						o7 := Offline{Expires: 4000000000, SigType: 7, Key: cp(attacker.pub), Sig: r.Bytes(specSigLen[dst])}
+						l7.H.Offline = &o7
+						l7.Sig = nil
+						l7.Sig = ed25519.Sign(attacker.priv, cat([]byte{3}, l7.Encode()))
+						sc.input = l7.Encode()
+						c05Run(c, sc, 0)
+					}
+				}
 				// offline block transplanted from another identity
 				other := genEd(r)
 				t := genEd(r)
@@ -553,6 +575,23 @@ func runC05(c *Ctx) {
 			sc.input = flip(w, len(w)-64, len(w))
 			c05Run(c, sc, 0)
 			if offline {
+				{
+					m6 := m
+					o6 := Offline{Expires: 0, SigType: 7, Key: cp(attacker.pub), Sig: r.Bytes(64)}
+					m6.H.Offline = &o6
+					m6.Sig = nil
+					m6.Sig = ed25519.Sign(attacker.priv, cat([]byte{7}, m6.Encode()))
+					c05Run(c, signedCase{E_VerifyMetaLeaseSet, "MetaLeaseSet.Verify", []byte{7}, m6.Encode(), nil}, 0)
+					for _, dst := range []int{0, 1, 2} {
+						m7 := m
+						m7.H.Dest = genIdentTypes(r, dst, []int{0, 4}[r.Intn(2)], false)
+						o7 := Offline{Expires: 4000000000, SigType: 7, Key: cp(attacker.pub), Sig: r.Bytes(specSigLen[dst])}
+						m7.H.Offline = &o7
+						m7.Sig = nil
+						m7.Sig = ed25519.Sign(attacker.priv, cat([]byte{7}, m7.Encode()))
+						c05Run(c, signedCase{E_VerifyMetaLeaseSet, "MetaLeaseSet.Verify", []byte{7}, m7.Encode(), nil}, 0)
+					}
+				}
 				m3 := m
 				o := Offline{Expires: 99, SigType: 7, Key: cp(attacker.pub), Sig: r.Bytes(64)}
 				m3.H.Offline = &o
